@@ -1,5 +1,5 @@
 SPECIFICATION Spec
-CONSTANTS Clients = {1, 2} Studies = {1, 2} MaxTrials = 4 FixCreate = FALSE
+CONSTANTS Clients = {1, 2} Studies = {1, 2} MaxTrials = 4 FixCreate = FALSE PointReadCaches = FALSE
 INVARIANT ViewEqualsBackend
 INVARIANT FinishedNeverStale
 INVARIANT UnfIsUnfinishedInCache
